@@ -110,6 +110,15 @@ Theorem C13_completion_refuted :
 Proof. eexists. split; vm_compute; reflexivity. Qed.
 Print Assumptions C13_completion_refuted.
 
+(* known finding F36: inside an attribute completion an internal error of auto_eval (here: the parse of the
+   parent expression) is swallowed by complete_symbol's own `except Exception: return []`: the answer is
+   pyflyby's (empty), not the original completer's, and nothing is withdrawn *)
+Theorem C13_attr_completion_original_refuted :
+  exists s1, hook_complete E9 IO_repaired [(SParse, EExc 10%N)] true [NKnownOk 2%N] s9 = Ret s1 ViaPyflyby /\
+             st s1 = ENABLED /\ errored s1 = false.
+Proof. eexists. vm_compute. repeat split. Qed.
+Print Assumptions C13_attr_completion_original_refuted.
+
 (* non-vacuity: on the repaired code the same completion is absorbed, answered by the original completer,
    and the importer has withdrawn; a healthy one is answered by pyflyby *)
 Example C13_nonvacuous_completion :
